@@ -27,6 +27,8 @@ def run(ctx):
     ctx.pipe([h, "culham", "400" if ctx.tier == "quick" else "5000"], "inputfn", label="culham-jacobian")
     # translator-independent oracle on the compiled classes (finite differences of the PDE operator)
     ctx.pipe([h, "fd", "6" if ctx.tier == "quick" else "60"], "inputfn", label="pde-finite-differences")
+    # the input functions are functions: several objects of one class alive together, evaluated alone / interleaved / alone again
+    ctx.pipe([h, "hist", "30" if ctx.tier == "quick" else "400"], "inputfn", label="evaluation-histories")
     ctx.assumptions += ["the (r, theta) form of -div(alpha grad u) + beta u is the classical change of variables of the Cartesian operator; that "
                         "equivalence is not formalised", "the Shafranov / Czarny source-term files (44) are tied POINTWISE to the derived source term, not symbolically; the 21 Circular-geometry problems are theorems (C19s), 6 of them up to the rounding of the decimal literals in the shipped formulas",
                         "Culham: radial profiles are tabulated ODE solutions; only the theta-consistency of mapping and Jacobian is exact, the r part is measured",
